@@ -563,9 +563,12 @@ class TimedOrigin(Behaviour):
     """Origin that sends `greeting` on accept and then piece k at virtual time accept + schedule[k][0]
     (a server pushing data on its own clock).  The scenario's min_time must cover the schedule."""
 
-    def __init__(self, greeting=(), schedule=()):
+    def __init__(self, greeting=(), schedule=(), reads=None):
+        """reads: None = read normally; else [(dt, nbytes)]: the origin reads ONLY at those times, nbytes each
+        (a slow consumer: the proxy's writes towards it pile up in between)."""
         self.greeting = list(greeting)
         self.schedule = sorted(schedule)
+        self.reads = None if reads is None else sorted(reads)
 
     def on_accept(self, conn):
         for p in self.greeting:
@@ -573,10 +576,21 @@ class TimedOrigin(Behaviour):
         w = conn.w
         t0 = w.now
         pending = list(self.schedule)
+        reads = None if self.reads is None else list(self.reads)
+        if reads is not None:
+            conn.reading = False
 
         def tick(world):
             while pending and world.now >= t0 + pending[0][0] - 1e-9 and not conn.closed:
                 conn.outbox.append(('send', pending.pop(0)[1]))
+                world.activity += 1
+            while reads and world.now >= t0 + reads[0][0] - 1e-9 and not conn.closed:
+                n = reads.pop(0)[1]
+                conn.reading = True
+                try:
+                    conn.read(n)
+                finally:
+                    conn.reading = False
                 world.activity += 1
         w.hooks.append(tick)
 
